@@ -209,6 +209,18 @@ let () =
         | "E" :: arch :: ff :: r when arch = x64 ->
           let (i, _, _) = read_inst ~with_comment:true r in
           Printf.printf "E %s\n" (string_of_text (Fmt.fmt_inst_ex (int_of_string ff land ff_explain <> 0) (fflags_of (int_of_string ff)) i))
+        | "O" :: "5" :: _ff :: r ->
+          (* AArch32: register operands only *)
+          (match read_a64_op r with
+           | (Fmt.AOReg (t, id, et, ei), _) ->
+             let txt = Fmt.a32_fmt_reg t id et ei in
+             Printf.printf "O %s\n" (string_of_text txt)
+           | _ -> raise (Bad "AArch32: register operands only"))
+        | "P" :: "R5" :: id :: _ ->
+          let (_, text) = split_bar line in
+          (match Fmt.parse_a32_gp (text_of_string text) with
+           | Some v -> if string_of_cz v = id then print_endline "P ok" else Printf.printf "P MISMATCH parsed=%s\n" (string_of_cz v)
+           | None -> print_endline "P MISMATCH parsed=<no parse>")
         | "O" :: arch :: ff :: r when arch = a64 ->
           let (op, _) = read_a64_op r in
           Printf.printf "O %s\n" (string_of_text (Fmt.a64_fmt_operand a64_fixed (fflags_of (int_of_string ff)) op))
@@ -319,6 +331,14 @@ let () =
           else
             Printf.printf "W %s\n" (string_of_text (Fmt.x86_fmt_virt (ff land ff_reg_type <> 0) (ff land ff_reg_casts <> 0)
               (if name = "-" then None else Some (text_of_string name)) (cz_of_string vidx) (Fmt.rt_of_code (cz_of_string vtype)) ot))
+        | "K6" :: ff :: nv :: r ->
+          let rec env n toks acc = if n = 0 then (List.rev acc, toks) else
+              (match toks with
+               | vt :: nm :: rest -> env (n - 1) rest (((if nm = "-" then None else Some (text_of_string nm)), Fmt.a64rt_of_code (cz_of_string vt)) :: acc)
+               | _ -> raise (Bad "venv")) in
+          let (e, rest) = env (int_of_string nv) r [] in
+          let i = read_a64_inst ~with_comment:false rest in
+          Printf.printf "K6 %s\n" (string_of_text (Fmt.a64_fmt_inst_virt e a64_fixed (fflags_of (int_of_string ff)) i))
         | "K" :: ff :: nv :: r ->
           let ff = int_of_string ff in
           let rec env n toks acc = if n = 0 then (List.rev acc, toks) else
@@ -397,6 +417,21 @@ let () =
              | [] -> raise (Bad "Q")) in
           if arch = a64 then go (fun t id -> (Fmt.a64rt_of_code (cz_of_string t), cz_of_string id)) Fmt.a64_rp
           else go (fun t id -> (Fmt.rt_of_code (cz_of_string t), cz_of_string id)) Fmt.x86_rp
+        | "P" :: "QL" :: arch :: _ ->
+          (* the proven reader on a whole FuncNode line: "P <label> ## <ret or void> ## <arg> <name>; ..." *)
+          let (_, text) = split_bar line in
+          let showv ty a sr = (match a with
+            | None -> Printf.sprintf "%s N" (string_of_text ty)
+            | Some (ind, Fmt.FAReg r) -> Printf.sprintf "%s R %s %s" (string_of_text ty) (sr r) (if ind then "i" else "d")
+            | Some (ind, Fmt.FAStack off) -> Printf.sprintf "%s S %s %s" (string_of_text ty) (string_of_cz off) (if ind then "i" else "d")) in
+          let out sr res = (match res with
+            | Some ((id, ret), args) ->
+              Printf.printf "P %s ## %s ## %s\n" (string_of_cz id)
+                (match ret with None -> "void" | Some (ty, a) -> showv ty a sr)
+                (String.concat "; " (List.map (fun ((ty, a), nm) -> showv ty a sr ^ " " ^ (match nm with None -> "-" | Some n -> string_of_text n)) args))
+            | None -> print_endline "P <no parse>") in
+          if arch = a64 then out (fun (t, i) -> Printf.sprintf "%s %s" (string_of_cz (Fmt.a64rt_code t)) (string_of_cz i)) (Fmt.parse_func_line Fmt.a64_pr (text_of_string text))
+          else out (fun (t, i) -> Printf.sprintf "%s %s" (show_rt t) (string_of_cz i)) (Fmt.parse_func_line Fmt.parse_reg_name (text_of_string text))
         | "P" :: "Q" :: arch :: _ ->
           (* the proven reader on one function value as printed by AsmJit *)
           let (_, text) = split_bar line in
@@ -440,6 +475,17 @@ let () =
                      (match pk with "0" -> Fmt.PNone | "1" -> Fmt.PNamed (text_of_string pname) | _ -> Fmt.PUnnamed (cz_of_string pid)),
                      text_of_string name) in
           Printf.printf "B %s\n" (string_of_text (Fmt.fmt_label info))
+        | "PL" :: _ ->
+          (* a whole log (several lines, '$' = newline) through the proven parse_log + columns_bytes: answer = number of lines and the bytes of all columns *)
+          let (_, text) = split_bar line in
+          let l = String.map (fun c -> if c = '$' then '\n' else c) text in
+          (match Fmt.parse_log (text_of_string l) with
+           | Some ls ->
+             (match Fmt.columns_bytes (List.map (fun ((_, col), _) -> col) ls) with
+              | Some bs -> Printf.printf "PL %d %s\n" (List.length ls)
+                             (String.concat "" (List.map (function None -> ".." | Some b -> Printf.sprintf "%02x" (Z.to_int (z_of_cz b))) bs))
+              | None -> print_endline "PL <columns unreadable>")
+           | None -> print_endline "PL <no parse>")
         | "G" :: _ ->
           (* the proven line splitter on AsmJit's logger line ('$' stands for the newline) *)
           let (_, text) = split_bar line in
@@ -452,6 +498,17 @@ let () =
            | None -> print_endline "C <unparsable>"
            | Some l -> Printf.printf "C %s\n" (String.concat " " (List.map (function None -> ".." | Some b -> Printf.sprintf "%02x" (Z.to_int (z_of_cz b))) l)))
         | "C" :: [] -> print_endline "C "
+        | "P" :: "V6" :: nv :: r ->
+          (* the proven reader of an AArch64 virtual-register operand: index, element suffix, element index *)
+          let (_, text) = split_bar line in
+          let rec env n toks acc = if n = 0 then (List.rev acc, toks) else
+              (match toks with
+               | vt :: nm :: rest -> env (n - 1) rest (((if nm = "-" then None else Some (text_of_string nm)), Fmt.a64rt_of_code (cz_of_string vt)) :: acc)
+               | _ -> raise (Bad "venv")) in
+          let (e, _) = env (int_of_string nv) r [] in
+          (match Fmt.read_a64_virt e (text_of_string text) with
+           | Some ((ix, suf), ei) -> Printf.printf "P %s %s %s\n" (string_of_cz ix) (let x = string_of_text suf in if x = "" then "-" else x) (match ei with None -> "-1" | Some k -> string_of_cz k)
+           | None -> print_endline "P <no parse>")
         | "P" :: "V" :: nv :: r ->
           let (_, text) = split_bar line in
           let rec env n toks acc = if n = 0 then (List.rev acc, toks) else
